@@ -424,11 +424,14 @@ def main(prop, tier):
         'discharged': res['verified'],
         'checker_cmd': res['cmd'] + '   (unit generated from /repo working tree by tools/extract_parser.py + tools/weave.py)',
         'trusted_base': assumptions_found + [
-            'contracts of Parser::nth and Parser::error are assumed here (external_body, R7) and checked on the same text by the Kani unit (C20 / C01-C)',
+            'contract of Parser::error is assumed here (external_body, R7: closure with a pattern parameter) and checked on the same text by the Kani unit (C20 / C01-C); Parser::nth is verified in place (on the R10-rewritten text; the Kani harness nth_contract checks the same contract on the real Cell-based text)',
+            'token vector length + 8 <= usize::MAX (requires of verif_top / verif_parse; a Vec of 40-byte LexTokens cannot be longer than isize::MAX / 40)',
+            'glue lines of parse_module that are not extracted: lexing (tokens_raw) and the trivia filter; from them verif_parse takes `tokens.len() == number of non-trivia raw tokens` and `every parser token has a token kind`',
+            'rowan GreenNodeBuilder specified by its call trace (contracts/parser_stubs.rs): start_node/token/finish_node append to the trace, finish() requires a single-root balanced trace; text-size str[TextRange] uninterpreted; std take_while/count and Option::map_or by assume_specification',
             'logos lexer: token spans non-empty, contiguous from 0 to len, on char boundaries, token kinds only (assumption i)',
             'rowan GreenNodeBuilder: a balanced call sequence yields a tree whose leaves are the token() calls in order (assumption iii)',
             'parse_module glue: lexing and trivia filtering lines (the Parser literal itself is extracted and verified in verif_top)',
-            'rewrite R10 (DESIGN.md 0.6): the progress-guard fuel `Cell<u32>` is verified as a plain `u32` field with `&mut self` receivers on nth/at/at_any; with it Verus PROVES that the fuel never reaches 0 (every call of Parser::nth satisfies `fuel > 0`), i.e. the "parser is stuck" panic is unreachable for every input - given the contract of Parser::nth (burns exactly one unit, changes nothing else), which Kani checks on the real Cell-based text',
+            'rewrite R10 (DESIGN.md 0.6): the progress-guard fuel `Cell<u32>` is verified as a plain `u32` field with `&mut self` receivers on nth/at/at_any; with it Verus PROVES that the fuel never reaches 0 (every call of Parser::nth satisfies `fuel > 0`), i.e. the "parser is stuck" panic is unreachable for every input - the contract of Parser::nth (burns exactly one unit, changes nothing else) is proved by Verus on the rewritten text and checked by Kani on the real Cell-based text',
             'machine stack: recursion depth is proved bounded by (MAX_DEPTH+1) x 16 frames; that this fits the thread stack is measured, not proved',
             'Verus, Z3 and the rewrites R1-R9 of DESIGN.md section 2.2',
         ],
